@@ -10,6 +10,15 @@ CHECKS = {
  "C03": dict(engine="A", technique="property-based testing with an exhaustive reference oracle: GLR forest vs independent derivation-tree enumerator (proptest, shrinking)",
    text="Bounded random exploration of ambiguous / non-LR / nullable / hidden-recursive / lexically ambiguous grammars; for each input the complete set of derivation trees is enumerated by an independent memoised enumerator and compared as a multiset with every tree of the real forest (by index and by all three iteration routes), including counts and out-of-range indexes.",
    note="Trusted: reference enumerator and its scope decision (acyclic, <=1 empty derivation per nonterminal); regex crate for reference recognisers; <=300 trees, <=9 tokens."),
+ "C07": dict(engine="A", technique="property-based differential testing: real LR parser vs real GLR parser on the same generated deterministic grammar (proptest, shrinking)",
+   text="Bounded random exploration: for generated conflict-free grammars the LR parser (defaults) and the GLR parser (LALR_RN) built from the same text are run on generated valid and invalid inputs (ASCII and multi-byte, multi-line); acceptance, solution count, tree (productions, token kinds/texts/spans, node spans after stripping trailing empty children) and error positions must agree.",
+   note="Trusted: scope decision uses the real raw table (cross-checked against an independent LR(1) construction in C04); no Layout rule (GLR trees carry no layout by design)."),
+ "C12": dict(engine="A", technique="property-based testing against an Earley valid-prefix oracle: error offsets of the real LR and GLR parsers on generated invalid inputs (proptest, shrinking)",
+   text="Bounded random exploration: generated grammars x generated invalid inputs (mutations, truncations, random tokens, foreign characters, whitespace/newline variations); the reported error offset, line/column and expected list of the real LR and GLR parsers are compared with the first non-viable token computed by an independent Earley recogniser; sentences must parse.",
+   note="Trusted: Earley valid-prefix computation on the spec's BNF (all nonterminals productive by construction); prefix-free terminals; default whitespace skipping."),
+ "C13": dict(engine="A", technique="property-based invariant checking over every generated parse tree (LR and all GLR forest trees) incl. pointer-level slice identity (proptest, shrinking)",
+   text="Bounded random exploration: every tree built by the real LR parser and every tree (<=50) of the real GLR forest for generated grammars with nullable symbols anywhere and multi-line / multi-byte inputs is checked against the span/position invariants of the property (slice identity by pointer, ordering, parent span, empty-node placement, line/column arithmetic).",
+   note="Trusted: the tree copier records slice pointers relative to the input buffer; default whitespace skipping; one recorded GLR finding (packed span shared across alternatives) is keyed on an exact signature."),
 }
 ALL = ["C%02d" % i for i in range(1, 19)]
 
